@@ -22,6 +22,8 @@ pub struct RecBudget {
     /// (event, inner calls made so far): event 'G' grant, 'R' refusal, 'D' deposit
     pub log: Mutex<Vec<(char, usize)>>,
     calls: trv_core::inner::Shared,
+    /// balance when the budget was handed to the layer
+    pub start_balance: usize,
 }
 
 impl RetryBudget for RecBudget {
@@ -85,6 +87,21 @@ pub enum BudgetKind {
     None,
     Token(usize),
     Aimd,
+    /// AIMD budget built through the public builder with unequal amounts: every success
+    /// deposits 1 token, every retry costs 3, ceiling 4 (starts full)
+    AimdCost3,
+}
+
+impl BudgetKind {
+    /// (tokens a retry costs, tokens a success deposits, ceiling) as configured
+    fn amounts(&self) -> Option<(usize, usize, usize)> {
+        match self {
+            BudgetKind::None => None,
+            BudgetKind::Token(_) => Some((1, 1, 2)),
+            BudgetKind::Aimd => Some((1, 1, 2)),
+            BudgetKind::AimdCost3 => Some((3, 1, 4)),
+        }
+    }
 }
 
 #[derive(Clone, Debug)]
@@ -129,9 +146,11 @@ pub fn build(cfg: &Cfg, shared: trv_core::inner::Shared) -> (Svc, Option<Arc<Rec
         BudgetKind::None => None,
         BudgetKind::Token(n) => Some(RetryBudgetBuilder::new().token_bucket().max_tokens(2).initial_tokens(n).build()),
         BudgetKind::Aimd => Some(RetryBudgetBuilder::new().aimd().min_budget(1).max_budget(2).build()),
+        BudgetKind::AimdCost3 => Some(RetryBudgetBuilder::new().aimd().min_budget(1).max_budget(4).deposit_amount(1).withdraw_amount(3).build()),
     };
     if let Some(raw) = raw {
-        let r = Arc::new(RecBudget { inner: raw, grants: AtomicUsize::new(0), refusals: AtomicUsize::new(0), deposits: AtomicUsize::new(0), log: Mutex::new(vec![]), calls: shared.clone() });
+        let start_balance = raw.balance();
+        let r = Arc::new(RecBudget { start_balance, inner: raw, grants: AtomicUsize::new(0), refusals: AtomicUsize::new(0), deposits: AtomicUsize::new(0), log: Mutex::new(vec![]), calls: shared.clone() });
         rec = Some(r.clone());
         b = b.budget(r);
     }
@@ -202,7 +221,7 @@ pub fn grid(tier: Tier) -> Vec<Cfg> {
         for per_request in [false, true] {
             for backoff in [Backoff::Zero, Backoff::Fixed, Backoff::Exponential, Backoff::Capped, Backoff::Fn, Backoff::SubMs, Backoff::Fractional] {
                 for predicate in [false, true] {
-                    for budget in [BudgetKind::None, BudgetKind::Token(0), BudgetKind::Token(1), BudgetKind::Token(2), BudgetKind::Aimd] {
+                    for budget in [BudgetKind::None, BudgetKind::Token(0), BudgetKind::Token(1), BudgetKind::Token(2), BudgetKind::Aimd, BudgetKind::AimdCost3] {
                         v.push(Cfg { max_attempts, per_request, backoff, predicate, budget });
                     }
                 }
@@ -260,6 +279,19 @@ pub fn run_grid(tier: Tier, rep: &mut Report) {
                         }
                         if rec.refusals.load(Ordering::SeqCst) > 0 {
                             rep.witness("budget_refused_a_retry", 1);
+                        }
+                        // the budget keeps its books with the *configured* amounts: what the
+                        // granted retries cost plus what is left cannot exceed what was there
+                        // plus what the successes deposited, and never the ceiling
+                        if let Some((cost, amount, ceiling)) = cfg.budget.amounts() {
+                            let grants = rec.grants.load(Ordering::SeqCst);
+                            let bal = rec.balance();
+                            if grants * cost + bal > rec.start_balance + dep * amount {
+                                viols.push(Viol::new("budget_books_do_not_balance", site, format!("{grants} granted retries x configured cost {cost} + balance {bal} > start {} + {dep} deposits x configured amount {amount}", rec.start_balance)));
+                            }
+                            if bal > ceiling {
+                                viols.push(Viol::new("budget_above_ceiling", site, format!("balance {bal} above the configured ceiling {ceiling}")));
+                            }
                         }
                     }
                     if n > 1 {
